@@ -21,6 +21,7 @@ import PgProofs.C05Auto
 import PgProofs.C05SpecRT
 import PgProofs.C05Geno
 import PgGen.C05Fn
+import PgProofs.C05MemSeq
 namespace Pg.C05
 
 /-! ## T-SIG: value specs can be rebuilt from what `to_json` emits -/
@@ -1040,6 +1041,24 @@ theorem C05_pinned_append :
     (run FsCfg.patched [] [.seqWrite "/mem/s".toList .w [['1'], ['2']], .seqWrite "/mem/s".toList .a [['3']],
                           .seqRead "/mem/s".toList]).2 = [.unit, .unit, .records [['1'], ['2'], ['3']]] := by
   decide
+
+/-! ## Record sequences in memory (`.mem`, `.mem@N`): a read returns fresh values -/
+
+/-- READ YOUR APPENDS for the memory sequence store, for every history over any set of paths: a
+read of `p` returns exactly the records added to `p` since its last 'w' (`specRecs`). -/
+theorem C05_memseq_read (p : Path) (before : List SOp) :
+    (sStep (sRun MemSeq.empty before).1 (.read p)).2 = .records (specRecs p before []) := by
+  simp only [sStep]
+  rw [sRun_state p before MemSeq.empty]
+  rfl
+
+/-- LATER READS DO NOT DEPEND ON WHAT CALLERS DID TO EARLIER RESULTS: deleting every
+"mutate a returned record in place" step from a history changes neither the store nor the result of
+any read. (A read hands out fresh values; the store holds the raw records.) -/
+theorem C05_reads_fresh (ops : List SOp) :
+    (sRun MemSeq.empty ops).1 = (sRun MemSeq.empty (ops.filter notMutate)).1 ∧
+    (sRun MemSeq.empty ops).2.filter isRead = (sRun MemSeq.empty (ops.filter notMutate)).2.filter isRead :=
+  sRun_erase_mutations ops MemSeq.empty
 
 /-! ## Open handles as state (F130) -/
 
